@@ -70,9 +70,15 @@ fn render_items(items: &Value) -> String {
 }
 
 fn attr_lines(attrs: &Value, indent: &str) -> String {
+    attr_lines_delim(attrs, indent, "paren")
+}
+
+/// an attribute's argument list may be delimited by parentheses, braces or brackets (`#[serde{rename = "x"}]` is legal)
+fn attr_lines_delim(attrs: &Value, indent: &str, delim: &str) -> String {
     let mut o = String::new();
+    let (l, r) = match delim { "brace" => ("{", "}"), "bracket" => ("[", "]"), _ => ("(", ")") };
     for a in attrs.as_array().cloned().unwrap_or_default() {
-        o.push_str(&format!("{}#[serde({})]\n", indent, render_items(&a)));
+        o.push_str(&format!("{}#[serde{}{}{}]\n", indent, l, render_items(&a), r));
     }
     o
 }
@@ -89,18 +95,19 @@ fn serde_tokens(attrs: &[syn::Attribute]) -> Vec<String> {
 pub fn exec_field_attrs(input: &Value) -> (Value, Value) {
     let kind = s(input, "kind");
     let ident = s(input, "ident");
+    let delim = s(input, "delim");
     let src = if kind == "variant" {
         format!(
             "#[derive(Serialize, Deserialize)]\n{}pub enum S {{\n{}    {},\n}}\n",
-            attr_lines(&input["container"], ""),
-            attr_lines(&input["attrs"], "    "),
+            attr_lines_delim(&input["container"], "", &delim),
+            attr_lines_delim(&input["attrs"], "    ", &delim),
             ident
         )
     } else {
         format!(
             "#[derive(Serialize, Deserialize)]\n{}pub struct S {{\n{}    pub {}: {},\n}}\n",
-            attr_lines(&input["container"], ""),
-            attr_lines(&input["attrs"], "    "),
+            attr_lines_delim(&input["container"], "", &delim),
+            attr_lines_delim(&input["attrs"], "    ", &delim),
             ident,
             input.get("ty").and_then(|x| x.as_str()).unwrap_or("i32")
         )
@@ -248,6 +255,8 @@ fn run_attrs(out: &mut Out, tier: &str) {
     let field_items: Vec<Value> = vec![
         json!({"k": "rename", "v": "renamedKey"}),
         json!({"k": "rename", "v": "skip"}),
+        json!({"k": "rename", "v": "skipped"}),
+        json!({"k": "rename", "v": "skip-ahead"}),
         json!({"k": "rename", "v": "a\"b"}),
         json!({"k": "rename", "v": "kebab-key"}),
         json!({"k": "rename", "v": "display-name", "raw": 1}),
@@ -301,7 +310,8 @@ fn run_attrs(out: &mut Out, tier: &str) {
             let ident = if kind == "variant" { idents_v[(k / 3) % 3] } else { ident };
             // the key does not depend on the field's type: rotate through types of every kind (marker, unit, unsized, …)
             let ty = FIELD_TYPES[k % FIELD_TYPES.len()];
-            out.case("fieldAttrs", json!({"kind": kind, "ident": ident, "container": c, "attrs": attrs, "ty": ty}), json!({"gen": "attrs"}));
+            let delim = ["paren", "brace", "paren", "bracket", "paren"][k % 5];
+            out.case("fieldAttrs", json!({"kind": kind, "ident": ident, "container": c, "attrs": attrs, "ty": ty, "delim": delim}), json!({"gen": "attrs"}));
         }
     }
 }
